@@ -123,6 +123,8 @@ def run_recipe(ctx: Ctx, recipe: Dict[str, Any], cid: str) -> Case:
     req, action = build_action(decl, (200, {}, ""))
     lines = decl_lines(decl)
     tags = {f"strict:{decl['strict']}", f"calls:{min(sum(1 for o in ops if 'mutate' not in o), 6)}"}
+    if decl.get("sv_case"):
+        tags.add("decl:sv-case-variants")
     nontrivial = False
     sigs = []
     last: Dict[str, Any] = {}
@@ -386,6 +388,7 @@ def rand_decl(rng) -> Dict[str, Any]:
         "action": rand_name(rng),
         "args": args,
         "other_actions": rng.choice([0, 0, 1, 2]),
+        "sv_case": rng.random() < 0.3,
     }
 
 
@@ -510,6 +513,14 @@ CORPUS = [
      "body": _ENV.format(f'<m:GetVolumeResponse xmlns:m="{_ST}">\n  <C> -12 </C>\n  <B>a &lt;b&gt; &amp;</B>\n  <A>TRUE</A>\n</m:GetVolumeResponse>')},
     {"decl": _d([("CurrentVolume", "ui2")]), "status": 200, "kind": "fault", "body": _ENV.format("<s:Fault/>")},
     {"decl": _d([("CurrentVolume", "ui2")]), "status": 200, "kind": "nobody", "body": None},
+    # state variables whose names differ only in case, with different data types: each out-argument is
+    # decoded with the type of the EXACTLY-named variable ('007' stays '007' for the string one)
+    {"decl": dict(_d([("S", "string"), ("N", "ui2"), ("B", "boolean"), ("F", "r8")]), sv_case=True),
+     "ops": [{"status": 200, "kind": "success",
+              "body": _ENV.format(f'<u:GetVolumeResponse xmlns:u="{_ST}"><S>007</S><N>007</N><B>1</B><F>007</F></u:GetVolumeResponse>')}]},
+    {"decl": dict(_d([("N", "ui2"), ("S", "string")], strict=False), sv_case=True),
+     "ops": [{"status": 200, "kind": "success",
+              "body": _ENV.format(f'<u:GetVolumeResponse xmlns:u="{_ST}"><S>007</S><N>007</N></u:GetVolumeResponse>')}]},
     # an in- and an out-argument of one name (audit C07-1)
     {"decl": dict(_d([]), action="Swap", args=[{"name": "X", "dir": "out", "type": "string"}, {"name": "X", "dir": "in", "type": "ui2"}]),
      "kwargs": [["X", ["i", "5"]]],
